@@ -19,10 +19,12 @@ BUILD = os.path.join(ROOT, ".build")
 # worktree with a candidate change); registered commands never set it: they use /repo.
 REPO = os.environ.get("OKV_REPO", "/repo")
 ALT = REPO != "/repo"
-TARGET = os.path.join(BUILD, "target-alt" if ALT else "target")
+# several development runs against different checkouts may go on at once: OKV_ALT_TAG separates them
+ALT_TAG = os.environ.get("OKV_ALT_TAG", "alt")
+TARGET = os.path.join(BUILD, "target-" + ALT_TAG if ALT else "target")
 OKV = os.path.join(TARGET, "release", "okv")
-HARNESS = os.path.join(BUILD, "harness-alt") if ALT else os.path.join(ROOT, "harness")
-OKANE_TARGET = os.path.join(BUILD, "okane-target-alt" if ALT else "okane-target")
+HARNESS = os.path.join(BUILD, "harness-" + ALT_TAG) if ALT else os.path.join(ROOT, "harness")
+OKANE_TARGET = os.path.join(BUILD, "okane-target-" + ALT_TAG if ALT else "okane-target")
 
 # axioms of the standard library a theorem may depend on (each named in DESIGN.md section 6)
 AXIOM_ALLOW = {
